@@ -17,9 +17,10 @@ func init() {
 			ruleB4(c)
 			ruleB5(c)
 			ruleB6(c)
+			ruleB7(c)
 			ruleS2S3(c)
 		},
-		explanation: "Decides the structure of split synchronization: every slice expression of the sender's chunk walk is proved in bounds by an inductive argument over the retry/advance loop (n <= len(list) holds on every edge into the loop head, including the edge that carries the recalculated chunk sizes); each list's chunk upper bound and advance lower bound are the same value and the 'more' flag is exactly 'something is left of either list' for those bounds; a non-final chunk whose reply carries updates or a different 'more' fails the sync before the lists are advanced; a plugin whose synchronization fails is never activated (both activation sites); the receiver appends both lists to the stored ones in order under the stub lock, takes-and-clears the stored request, calls the handler exactly once with the concatenation and wires its results to the response. The chunk walk ends on the sender's own More flag, never on the reply's.",
+		explanation: "Decides the structure of split synchronization: every slice expression of the sender's chunk walk is proved in bounds by an inductive argument over the retry/advance loop (n <= len(list) holds on every edge into the loop head, including the edge that carries the recalculated chunk sizes); each list's chunk upper bound and advance lower bound are the same value and the 'more' flag is exactly 'something is left of either list' for those bounds; a non-final chunk whose reply carries updates or a different 'more' fails the sync before the lists are advanced; a plugin whose synchronization fails is never activated (both activation sites); the receiver appends both lists to the stored ones in order under the stub lock, takes-and-clears the stored request, calls the handler exactly once with the concatenation and wires its results to the response. The chunk walk ends on the sender's own More flag, never on the reply's. A per-message count that the retry scales down to zero is raised to one while its list is non-empty, so every accepted non-final chunk advances every non-empty list.",
 		notDecided: []string{
 			"the arithmetic of the shrink factor and hence termination of the retry loop (numeric)",
 			"transport limits and the sizes of real objects",
@@ -544,4 +545,126 @@ func floatVal(c *ssa.Const) (float64, bool) {
 	}
 	f, _ := constantFloat(c)
 	return f, true
+}
+
+// ruleB7: progress of the chunk walk.
+func ruleB7(c *Ctx) {
+	m := c.M
+	c.rule("B7", "progress: a per-message count that the retry path scales down can become zero by truncation; it is then raised to a positive constant while its list is non-empty (in the retry branch of plugin.synchronize or in recalcObjsPerSyncMsg itself), so that every accepted non-final chunk advances every non-empty list — otherwise the list whose count fell to zero is never sent and the walk spins on empty messages until the request timeout", 2)
+	f := m.method(pkgAdapt, "plugin", "synchronize")
+	rc := m.fn(pkgAdapt, "recalcObjsPerSyncMsg")
+	var rcall *ssa.Call
+	for _, ci := range m.callsTo(f, rc) {
+		rcall, _ = ci.(*ssa.Call)
+	}
+	if rcall == nil {
+		c.violate("B7", "synchronize/recalc", f.Pos(), "the retry path recomputes the per-message counts", "synchronize does not call recalcObjsPerSyncMsg")
+		return
+	}
+	// zeroFloor: in fn there is a phi that merges x (with isCount(x)) and a constant >= 1, the constant's edge being
+	// taken only when x was found to be zero (x == 0, x < 1, x <= 0)
+	zeroFloor := func(fn *ssa.Function, isCount func(ssa.Value) bool) bool {
+		for _, b := range fn.Blocks {
+			for _, in := range b.Instrs {
+				phi, ok := in.(*ssa.Phi)
+				if !ok {
+					continue
+				}
+				var x ssa.Value
+				for _, e := range phi.Edges {
+					if _, isC := e.(*ssa.Const); !isC && isCount(e) {
+						x = e
+					}
+				}
+				if x == nil {
+					continue
+				}
+				for i, e := range phi.Edges {
+					k, isC := constInt(e)
+					if !isC || k < 1 {
+						continue
+					}
+					pred := b.Preds[i]
+					conds := controls(pred)
+					if iff := lastIf(pred); iff != nil && pred.Succs[0] != pred.Succs[1] {
+						conds = append(conds, Cond{V: iff.Cond, Pol: pred.Succs[0] == b, If: iff})
+					}
+					for _, cd := range conds {
+						cd = normCond(cd)
+						bo, ok := cd.V.(*ssa.BinOp)
+						if !ok || bo.X != x {
+							continue
+						}
+						z, isZ := constInt(bo.Y)
+						if !isZ {
+							continue
+						}
+						isZeroTest := (bo.Op == token.EQL && z == 0 && cd.Pol) || (bo.Op == token.NEQ && z == 0 && !cd.Pol) ||
+							(bo.Op == token.LSS && z == 1 && cd.Pol) || (bo.Op == token.LEQ && z == 0 && cd.Pol) ||
+							(bo.Op == token.GTR && z == 0 && !cd.Pol) || (bo.Op == token.GEQ && z == 1 && !cd.Pol)
+						if isZeroTest {
+							return true
+						}
+					}
+				}
+			}
+		}
+		return false
+	}
+	for k, name := range []string{"pods", "containers"} {
+		k := k
+		// in synchronize: the count derived from result #k of the recomputation (possibly clamped in between)
+		var fromRecalc func(v ssa.Value, d int) bool
+		fromRecalc = func(v ssa.Value, d int) bool {
+			if d > 6 {
+				return false
+			}
+			switch x := v.(type) {
+			case *ssa.Extract:
+				return x.Tuple == ssa.Value(rcall) && x.Index == k
+			case *ssa.Phi:
+				for _, e := range x.Edges {
+					if fromRecalc(e, d+1) {
+						return true
+					}
+				}
+			case *ssa.Call:
+				if bi, ok := x.Call.Value.(*ssa.Builtin); ok && bi.Name() == "min" {
+					for _, a := range x.Call.Args {
+						if fromRecalc(a, d+1) {
+							return true
+						}
+					}
+				}
+			}
+			return false
+		}
+		okS := zeroFloor(f, func(v ssa.Value) bool { return fromRecalc(v, 0) })
+		// in recalcObjsPerSyncMsg: the scaled value that is returned as result #k
+		okR := false
+		if !okS {
+			var scaled func(v ssa.Value, d int) bool
+			scaled = func(v ssa.Value, d int) bool {
+				if d > 6 {
+					return false
+				}
+				switch x := v.(type) {
+				case *ssa.Convert:
+					if bo, ok := x.X.(*ssa.BinOp); ok && bo.Op == token.MUL {
+						return derivedFrom(bo, rc.Params[k])
+					}
+				case *ssa.Phi:
+					for _, e := range x.Edges {
+						if scaled(e, d+1) {
+							return true
+						}
+					}
+				}
+				return false
+			}
+			okR = zeroFloor(rc, func(v ssa.Value) bool { return scaled(v, 0) })
+		}
+		c.ok("B7", "progress/"+name, rcall.Pos(), okS || okR, "a "+name+" count scaled down to zero is raised to at least one while "+name+" remain",
+			"the recomputed per-message count of "+name+" is int(count*factor) and can be 0 (for example 3 pods next to thousands of large containers: factor < 1/3); nothing raises it again, so the "+name+" are never sent: every later chunk carries none of them, More stays true, and once the other list is exhausted the walk sends empty messages until the request timeout and the registration fails — the state is not delivered although it is transmissible")
+	}
 }
